@@ -90,8 +90,14 @@ class HumanMessageSerializer:
 
             if line.startswith("["):
                 _serialize_pending_packed()
-                cur_block = Block(re.search(r"\w+", line).group(0))
-                msg.add_block(cur_block)
+                block_name = re.search(r"\w+", line).group(0)
+                if re.match(r"^\[\w+]\s*\*\s*0\b", line):
+                    # `[Name] * 0`, the block is present but has no entries
+                    msg.create_block_list(block_name)
+                    cur_block = None
+                else:
+                    cur_block = Block(block_name)
+                    msg.add_block(cur_block)
             else:
                 expr_match = re.match(r"^\s*(\w+)\s*(=[|$]*)\s*(.*)$", line)
                 var_name, operator, var_val = expr_match.groups()
@@ -183,6 +189,10 @@ class HumanMessageSerializer:
             block_suffix = ""
             if template and template.get_block(block_name).block_type == MsgBlockType.MBT_VARIABLE:
                 block_suffix = '  # Variable'
+            if not block_list:
+                # A variable block with a count of 0 is still there on the wire, and whether
+                # it was seen matters when the message is serialized again.
+                string += f"[{block_name}] * 0{block_suffix}\n"
             for block_num, block in enumerate(block_list):
                 string += f"[{block_name}]{block_suffix}\n"
                 for var_name, val in block.items():
